@@ -70,7 +70,13 @@ Next ==
   /\ l' = l + 1
   /\ LET ev == Trace[l] IN
      IF ev.op.op = "reset"
-     THEN /\ st' = InitState /\ scen' = ev.op.id /\ poisoned' = FALSE /\ nmis' = nmis
+     THEN /\ st' = [InitState EXCEPT
+                      !.reg = IF "reg" \in DOMAIN ev.op
+                              THEN [n \in {ev.op.reg[i][1] : i \in DOMAIN ev.op.reg} |->
+                                      ev.op.reg[CHOOSE i \in DOMAIN ev.op.reg : ev.op.reg[i][1] = n][2]]
+                              ELSE <<>>,
+                      !.defdec = IF "defdec" \in DOMAIN ev.op THEN ev.op.defdec ELSE <<>>]
+          /\ scen' = ev.op.id /\ poisoned' = FALSE /\ nmis' = nmis
           /\ (l < Len(Trace) \/ Done(nmis))
      ELSE IF poisoned
      THEN /\ UNCHANGED <<st, scen, poisoned, nmis>>
